@@ -60,6 +60,13 @@ import (
 // NewConnection calls): the configuration a Connection runs with is a function of the Client's fields,
 // however often NewConnection normalised them.
 //
+// A response carries a status code (the last element of a rejected / accepted step; absent or 0 = 200): the
+// informational, success, redirection, client- and server-error codes of connStatuses.  Whether a response is accepted
+// is the VALIDATOR's verdict, which the script fixes; the status is what a validator may look at and nothing else, so
+// once the verdict is scripted the status cannot matter: model and oracle do not read it.  The validator (cfg.At(9))
+// is a closure of the harness (accepts unless the script says "rejected") or, for scripts without a rejected response,
+// the library's own sse.NoopValidator.
+//
 // Attempts may take time (cfg.At(7): RoundTrip / the end of the body sleep a few ms).  One-sided timing
 // observation, for every OnRetry that is followed by a request: the monotonic time from the end of the
 // OnRetry call (the timer is armed after it) to the start of that RoundTrip is at least the wait handed
@@ -402,8 +409,12 @@ func (r *connRun) RoundTrip(req *http.Request) (*http.Response, error) {
 	if r.rtDelay > 0 {
 		time.Sleep(r.rtDelay)
 	}
-	ok := func(b io.ReadCloser) *http.Response {
-		return &http.Response{StatusCode: 200, Status: "200 OK", Proto: "HTTP/1.1", ProtoMajor: 1, ProtoMinor: 1,
+	ok := func(status uint64, b io.ReadCloser) *http.Response {
+		code := int(status)
+		if code == 0 {
+			code = http.StatusOK
+		}
+		return &http.Response{StatusCode: code, Status: strconv.Itoa(code) + " " + http.StatusText(code), Proto: "HTTP/1.1", ProtoMajor: 1, ProtoMinor: 1,
 			Header: http.Header{"Content-Type": {"text/event-stream"}}, Body: b, Request: req}
 	}
 	switch st.At(0).Num() {
@@ -414,9 +425,9 @@ func (r *connRun) RoundTrip(req *http.Request) (*http.Response, error) {
 		return nil, r.ctx.Err()
 	case 2:
 		r.reject = st.At(1).Num()
-		return ok(io.NopCloser(strings.NewReader(""))), nil
+		return ok(st.At(2).Num(), io.NopCloser(strings.NewReader(""))), nil
 	default:
-		return ok(&scriptBody{run: r, data: append([]byte{}, st.At(1).Bytes()...), ending: st.At(2),
+		return ok(st.At(5).Num(), &scriptBody{run: r, data: append([]byte{}, st.At(1).Bytes()...), ending: st.At(2),
 			chunks: st.At(3).Items(), withLast: st.At(4).Truth()}), nil
 	}
 }
@@ -480,6 +491,15 @@ func connRetOf(ctx context.Context, err error) val.V {
 	return val.L(val.N(9), val.S(fmt.Sprint(err)))
 }
 
+func connHasRejection(steps []val.V) bool {
+	for _, st := range steps {
+		if st.At(0).Num() == 2 {
+			return true
+		}
+	}
+	return false
+}
+
 func execConnect(in val.V) val.V {
 	return guard(func() val.V {
 		cfg, steps := in.At(0), in.At(1)
@@ -525,15 +545,19 @@ func execConnect(in val.V) val.V {
 			req.Header.Set("Last-Event-ID", cfg.At(3).At(0).Str())
 		}
 
+		validator := sse.ResponseValidator(func(*http.Response) error {
+			if e := run.reject; e != 0 {
+				run.reject = 0
+				return scriptedErr(e)
+			}
+			return nil
+		})
+		if cfg.At(9).Num() == 1 && !connHasRejection(run.steps) {
+			validator = sse.NoopValidator // the library's own accept-everything validator
+		}
 		client := &sse.Client{
-			HTTPClient: &http.Client{Transport: run},
-			ResponseValidator: func(*http.Response) error {
-				if e := run.reject; e != 0 {
-					run.reject = 0
-					return scriptedErr(e)
-				}
-				return nil
-			},
+			HTTPClient:        &http.Client{Transport: run},
+			ResponseValidator: validator,
 			Backoff: sse.Backoff{
 				InitialInterval: time.Duration(bo.At(0).Signed()),
 				Multiplier:      ratFloat(bo.At(1)),
@@ -609,6 +633,9 @@ func connLine(r *rng.R, maxRetryMs int, bigRetry bool) string {
 		}
 		return "retry: " + strconv.Itoa(r.Intn(maxRetryMs+1))
 	case 10:
+		if r.Chance(1, 2) {
+			return connNearRetry(r, maxRetryMs, bigRetry)
+		}
 		return rng.Pick(r, []string{"retry: +1", "retry: -0", "retry: 1x", "retry:", "retry: 9223372036854775808", "retry: 00"})
 	case 11:
 		return ": comment"
@@ -616,6 +643,47 @@ func connLine(r *rng.R, maxRetryMs int, bigRetry bool) string {
 		return rng.Pick(r, []string{"unknown: z", "dat: a", "idx", "retry"})
 	default:
 		return ""
+	}
+}
+
+// white space that may surround a numeral: what strings.TrimSpace / strings.Fields / unicode.IsSpace call space (SP, TAB,
+// VT, FF, NEL, NBSP, en quad, line / paragraph separator, ideographic space) - CR and LF excepted, they end the line
+var connSpaces = []string{" ", "  ", "\t", "\x0b", "\x0c", "\xc2\x85", "\xc2\xa0", "\xe2\x80\x80", "\xe2\x80\xa8", "\xe2\x80\xa9", "\xe3\x80\x80", " \t "}
+
+// connNearRetry is a retry field whose value is NOT a string of ASCII digits only but close to one: a positive numeral
+// (one that would change the wait if it were taken) with white space before it (beyond the one space the field syntax
+// strips), after it or inside it, with a sign, a unit, a fraction, an exponent, a base prefix, a digit separator, or
+// written in digits that are not ASCII.  All of them are to be ignored.
+func connNearRetry(r *rng.R, maxRetryMs int, bigRetry bool) string {
+	num := strconv.Itoa(1 + r.Intn(maxRetryMs+1))
+	if r.Chance(1, 3) {
+		num = strconv.Itoa(10 + r.Intn(40))
+	}
+	if bigRetry && r.Chance(1, 2) {
+		num = rng.Pick(r, []string{"1000", "900", "5000", "86400000"})
+	}
+	sp := func() string { return rng.Pick(r, connSpaces) }
+	sep := rng.Pick(r, []string{": ", ":"})
+	switch r.Intn(12) {
+	case 0, 1:
+		return "retry: " + sp() + num // after the one space that belongs to the field syntax
+	case 2:
+		return "retry:" + rng.Pick(r, connSpaces[2:]) + num // no space: the padding directly after the colon
+	case 3, 4, 5:
+		return "retry" + sep + num + sp()
+	case 6:
+		return "retry: " + sp() + num + sp()
+	case 7:
+		return "retry" + sep + num[:1] + sp() + num[1:] + "0"
+	case 8:
+		return "retry" + sep + rng.Pick(r, []string{"+", "-", "+ ", "0x", "0X", "0b", "0o", "#", "$"}) + num
+	case 9:
+		return "retry" + sep + num + rng.Pick(r, []string{"ms", "s", ".0", ".", "e0", "e3", "E1", "_000", ",000", "L", "u", "%", ";", ":"})
+	case 10:
+		return "retry" + sep + num[:1] + rng.Pick(r, []string{"_", ",", ".", "'", "-"}) + num
+	default:
+		// Arabic-Indic, fullwidth and superscript digits
+		return "retry" + sep + rng.Pick(r, []string{"\xd9\xa1", "\xd9\xa4\xd9\xa0", "\xef\xbc\x91", "\xef\xbc\x94\xef\xbc\x90", "\xc2\xb2", "1\xd9\xa0"})
 	}
 }
 
@@ -682,7 +750,32 @@ func connStream(r *rng.R, body string, c *Ctx) val.V {
 		ending = val.L(val.N(2), val.N(uint64(r.Intn(2))))
 		c.Count("ending:cancel")
 	}
-	return val.L(val.N(3), val.S(body), ending, connChunks(r, len(body)), val.Bool(r.Chance(1, 4)))
+	return val.L(val.N(3), val.S(body), ending, connChunks(r, len(body)), val.Bool(r.Chance(1, 4)), connStatus(r, c))
+}
+
+// The status codes a response may carry.  Left out: 301 302 303 307 308, which make an http.Client look for a Location
+// header (without one it hands the response through like any other; that is net/http's business, not the Connection's).
+var connStatuses = []uint64{200, 100, 101, 102, 103, 201, 202, 203, 204, 205, 206, 207, 226, 300, 304, 305, 400, 401, 403, 404, 405, 408, 409, 410,
+	418, 425, 429, 451, 500, 501, 502, 503, 504, 511, 599, 299, 999}
+
+// connStatus draws the status of a response: 200 half of the time
+func connStatus(r *rng.R, c *Ctx) val.V {
+	st := uint64(200)
+	if r.Chance(1, 2) {
+		st = rng.Pick(r, connStatuses[1:])
+	}
+	c.Count(fmt.Sprintf("status:%dxx", st/100))
+	return val.N(st)
+}
+
+// which validator the Client has: the harness's closure, or - when the script has no rejected response - sse.NoopValidator
+func connValidator(r *rng.R, c *Ctx, steps []val.V) val.V {
+	k := 0
+	if !connHasRejection(steps) && r.Chance(1, 2) {
+		k = 1
+	}
+	c.Count(fmt.Sprintf("validator:%d", k))
+	return val.Int(k)
 }
 
 func connAttempt(r *rng.R, c *Ctx, maxRetryMs int, bigRetry bool) val.V {
@@ -695,7 +788,7 @@ func connAttempt(r *rng.R, c *Ctx, maxRetryMs int, bigRetry bool) val.V {
 		return val.L(val.N(1))
 	case k == 4:
 		c.Count("attempt:rejected")
-		return val.L(val.N(2), val.N(connErrIdx(r, c, 300)))
+		return val.L(val.N(2), val.N(connErrIdx(r, c, 300)), connStatus(r, c))
 	default:
 		c.Count("attempt:stream")
 		return connStream(r, connBody(r, maxRetryMs, bigRetry), c)
@@ -830,6 +923,61 @@ func connContextSweep(c *Ctx) {
 	}
 }
 
+// every status code with every validator (the harness's closure accepting, sse.NoopValidator, the closure rejecting) and
+// three bodies (none at all - what a 204 / 304 really carries -, a complete event, a cut line), followed by two more
+// attempts: an accepted response is read and retried whatever its status, a rejected one ends Connect whatever its status
+func connStatusSweep(c *Ctx) {
+	bo := val.L(val.Z(2000), vrat(3, 2), vrat(-1, 1), val.Z(0), val.Z(0), val.Z(3))
+	after := val.L(val.N(3), val.S("id: 7\ndata: after\n\n"), val.L(val.N(0)), val.L(), val.Bool(false), val.N(200))
+	last := val.L(val.N(2), val.N(301), val.N(200))
+	i := 0
+	emit := func(validator int, steps ...val.V) {
+		i++
+		c.Count("status-sweep")
+		c.Emit(val.L(val.L(bo, val.L(val.N(3), val.N(0), val.N(0)), val.Bool(i%4 != 0), val.L(), val.L(val.Z(connPatience)), val.Bool(false), val.Int(i%3),
+			val.L(val.N(0), val.N(0)), val.Int(i%(connCtxKinds-1)), val.Int(validator)), val.List(steps)))
+	}
+	for _, st := range connStatuses {
+		for _, body := range []string{"", "id: 4\ndata: a\n\n", "data: cut"} {
+			first := val.L(val.N(3), val.S(body), val.L(val.N(0)), val.L(), val.Bool(false), val.N(st))
+			emit(0, first, after, last)
+			emit(1, first, after, val.L(val.N(0), val.N(201)), val.L(val.N(0), val.N(202)), val.L(val.N(0), val.N(203)), val.L(val.N(0), val.N(204)))
+		}
+		emit(0, val.L(val.N(2), val.N(302), val.N(st)), after, last)
+		emit(0, after, val.L(val.N(2), val.N(7302), val.N(st)), after)
+	}
+}
+
+// every kind of white space before / after / around a numeral, and the other near-numerals, as the only retry field of a
+// stream and after a valid one: the waits that follow are InitialInterval resp. the valid field's value and their growth
+func connNearRetrySweep(c *Ctx) {
+	bo := val.L(val.Z(2000), vrat(3, 2), vrat(-1, 1), val.Z(0), val.Z(0), val.Z(0))
+	values := []string{}
+	for _, num := range []string{"3", "40"} {
+		for _, sp := range connSpaces {
+			values = append(values, " "+sp+num, " "+num+sp, num+sp, " "+sp+num+sp)
+			if sp[0] != ' ' {
+				values = append(values, sp+num)
+			}
+		}
+		values = append(values, " +"+num, " -"+num, " "+num[:1]+" 0", " "+num+"ms", " 0x"+num, " "+num+".0", " "+num+"e0", " "+num[:1]+"_"+num, "+"+num)
+	}
+	values = append(values, " \xd9\xa3", " \xef\xbc\x93", " 0x28", " 4 0", "  ", " ", " \t")
+	terr := func(n uint64) val.V { return val.L(val.N(0), val.N(n)) }
+	last := val.L(val.N(1)) // the context is cancelled inside the fourth RoundTrip
+	for i, v := range values {
+		for _, pre := range []string{"", "retry: 1\n"} {
+			for _, post := range []string{"\ndata: a\n\n", "\n\n"} {
+				c.Count("near-retry-sweep")
+				body := pre + "retry:" + v + post
+				stream := val.L(val.N(3), val.S(body), val.L(val.N(0)), connChunks(c.R, len(body)), val.Bool(false), val.N(200))
+				c.Emit(val.L(val.L(bo, val.L(val.N(0), val.N(0), val.N(0)), val.Bool(i%5 != 0), val.L(), val.L(val.Z(connPatience)), val.Bool(false), val.Int(0),
+					val.L(val.N(0), val.N(0)), val.Int(0), val.Int(i%2)), val.L(stream, terr(201), terr(202), last)))
+			}
+		}
+	}
+}
+
 func genConnect(c *Ctx) {
 	r := c.R
 	n := 3000
@@ -863,7 +1011,8 @@ func genConnect(c *Ctx) {
 			c.Count("cancelled-before-connect")
 		}
 		others := connOtherConnections(r, c)
-		c.Emit(val.L(val.L(bo, bk, val.Bool(onRetry), hdr, patience, val.Bool(before), others, val.L(val.N(0), val.N(0)), connCtxKind(r, c, before)), val.List(steps)))
+		c.Emit(val.L(val.L(bo, bk, val.Bool(onRetry), hdr, patience, val.Bool(before), others, val.L(val.N(0), val.N(0)), connCtxKind(r, c, before),
+			connValidator(r, c, steps)), val.List(steps)))
 	}
 	// attempts that take time (a slow transport, a response that stays up for a while before it ends) followed by waits
 	// of a few milliseconds; few of them, they are slept
@@ -896,10 +1045,12 @@ func genConnect(c *Ctx) {
 		bk := connBodyKind(r, c)
 		c.Count("slow-attempts")
 		c.Emit(val.L(val.L(bo, bk, val.Bool(true), val.L(), val.L(val.Z(connPatience)), val.Bool(false), connOtherConnections(r, c),
-			val.L(val.N(rtDelay), val.N(bodyDelay)), connCtxKind(r, c, false)), val.List(steps)))
+			val.L(val.N(rtDelay), val.N(bodyDelay)), connCtxKind(r, c, false), connValidator(r, c, steps)), val.List(steps)))
 	}
 	connCharacterSweep(c)
 	connContextSweep(c)
+	connStatusSweep(c)
+	connNearRetrySweep(c)
 	// endings after every byte position of short streams, clean and erroneous and cancelled (C11)
 	shorts := []string{"data: a\n\nid: 1\n\n", "id: 5\ndata: x\r\n\r\n: c\n", "\xef\xbb\xbfretry: 1\n\ndata: y\n\n", "data: a\n\n\n", "\n", "id: 3\revent: t\r\r"}
 	for _, s := range shorts {
